@@ -19,7 +19,7 @@ The PLUS solver (a Newton iteration on smoothed complementarity functions) has n
 import re
 from ..facts import extract, units_matching, Program, AnalysisBroken, sx_find, sx_str
 from ..match import call_args, call_obj, var_of, field_of, ev_write, known_edges, only_via
-from ..columns import _loop_var, _steps, _lit, _iter_bypass
+from ..columns import _loop_var, _steps, _lit, _iter_bypass, range_for
 
 UNITS = r"/Simbody/src/PGSImpulseSolver\.cpp$"
 # family (the solve() parameter the loop's row record comes from) -> (update routine, bound routine)
@@ -204,14 +204,16 @@ def clamp(chk, P):
                     w = ev_write(e)
                     if w and w[1] == "+=" and isinstance(w[0], list) and w[0][:1] == ["var"]:
                         sets = {y[1] for y in sx_find(w[2], lambda y: y[0] == "var" and y[1] in ps)}
+                        rf = range_for(f, h)
+                        if rf is not None and var_of(rf[0]) in ps and sx_find(w[2], lambda y: y == ["var", rf[1]]):
+                            sets.add(var_of(rf[0]))      # `for (ix : IV) .. pi[ix]` mentions IV through its element
                         acc[w[0][1]] = (h, iv, c, sets, e)
         f2 = [v for v, a in acc.items() if IV in a[3] and piv in a[3]]
         if not chk.shape(len(f2) == 1, "CLAMP", n + ":squared-length", f.loc, "accumulators over %s: %s" % (IV, f2)):
             continue
         L2 = f2[0]
         h, iv, c, sets, e = acc[L2]
-        okl = isinstance(c, list) and c[1] == "<" and bool(sx_find(c[3], lambda y: y[0] == "call" and y[1].endswith("::size") and var_of(y[2]) == IV)) and _steps(f, loops[h], iv) == ["++"] and \
-            any(_lit(d.get("init"), ("0",)) for _, _, d in f.events(lambda q: q["k"] == "decl" and q["var"] == iv))
+        okl = _whole_set(f, h, loops, IV) is not None
         chk.judge(okl and bool(sx_find(ev_write(e)[2], lambda y: y[0] in ("call", "dcall") and str(y[1]).split("::")[-1] == "square")), "CLAMP", n + ":length-summed-over-the-whole-set", "%s:%d" % (f.file, e["line"]),
                   "%s += %s for %s" % (L2, sx_str(ev_write(e)[2]), sx_str(c)))
         # early return exactly when within the limit
@@ -236,22 +238,35 @@ def clamp(chk, P):
             hs = f.loops_of(sb)
             okall = False
             for h2 in hs:
-                iv2, c2 = _loop_var(f, h2)
-                d2 = [d for db, _, d in f.events(lambda q: q["k"] == "decl" and q["var"] == iv2)
-                      if f.path_exists(_pos(f, d), lambda q: q is se, lambda q: False, lift=0) is not None]
-                d2 = d2[-1:] if d2 else []
-                # (the declaration that reaches the scaling loop is the nearest one before it)
-                near = [d for _, _, d in f.events(lambda q: q["k"] == "decl" and q["var"] == iv2) if d["line"] <= se["line"]]
-                start0 = bool(near) and _lit(sorted(near, key=lambda d: d["line"])[-1].get("init"), ("0",))
-                if start0 and isinstance(c2, list) and c2[1] == "<" and bool(sx_find(c2[3], lambda y: y[0] == "call" and y[1].endswith("::size") and var_of(y[2]) == IV)) and _steps(f, loops[h2], iv2) == ["++"]:
-                    lhs = ev_write(se)[0]
-                    okall = bool(sx_find(lhs, lambda y: y[0] in ("opc", "idx") and var_of(y[2]) == IV and len(y) > 3 and _strip(y[3]) == ["var", iv2]))
+                el = _whole_set(f, h2, loops, IV, at_line=se["line"])
+                if el is not None:
+                    okall = bool(sx_find(ev_write(se)[0], el))
             chk.judge(okall, "CLAMP", n + ":every-component-of-the-set-scaled", "%s:%d" % (f.file, se["line"]), "%s *= scale for every index of %s" % (sx_str(ev_write(se)[0]), IV))
             sc = var_of(ev_write(se)[2])
             sd = [d for _, _, d in f.events(lambda q: q["k"] == "decl" and q["var"] == sc)]
             oksc = len(sd) == 1 and bool(sx_find(sd[0]["init"], lambda y: y[0] in ("call", "dcall") and str(y[1]).split("::")[-1] == "sqrt" and
                                                    bool(sx_find(y, lambda z: z[0] == "op" and z[1] == "/" and z[2] == ["var", lim] and z[3] == ["var", L2]))))
             chk.judge(oksc, "CLAMP", n + ":scale=sqrt(limit^2/length^2)", f.loc, "scale = %s" % (sx_str(sd[0]["init"]) if sd else None))
+
+
+def _whole_set(f, h, loops, IV, at_line=None):
+    """loop h visits every element of the index set IV once: `for (i = 0; i < IV.size(); ++i)` (element IV[i]) or `for (ix : IV)` (element ix).
+    Returns a predicate recognising the current element, or None."""
+    rf = range_for(f, h)
+    if rf is not None:
+        return (lambda y: y == ["var", rf[1]]) if var_of(rf[0]) == IV and rf[0][:1] == ["var"] else None
+    iv, c = _loop_var(f, h)
+    if not iv or not isinstance(c, list) or c[1] != "<":
+        return None
+    # (the declaration that reaches the loop is the nearest one before it)
+    ds = [d for _, _, d in f.events(lambda q: q["k"] == "decl" and q["var"] == iv)]
+    if at_line is not None:
+        ds = sorted([d for d in ds if d["line"] <= at_line], key=lambda d: d["line"])[-1:]
+    if not any(_lit(d.get("init"), ("0",)) for d in ds):
+        return None
+    if not sx_find(c[3], lambda y: y[0] == "call" and y[1].endswith("::size") and var_of(y[2]) == IV) or _steps(f, loops[h], iv) != ["++"]:
+        return None
+    return lambda y: y[0] in ("opc", "idx") and var_of(y[2]) == IV and len(y) > 3 and _strip(y[3]) == ["var", iv]
 
 
 def report(chk, P):
